@@ -8,7 +8,6 @@ import (
 	"strings"
 	"time"
 
-	"github.com/atlassian/escalator/pkg/cloudprovider"
 	"github.com/atlassian/escalator/pkg/metrics"
 	dto "github.com/prometheus/client_model/go"
 	"github.com/prometheus/client_golang/prometheus"
@@ -249,9 +248,9 @@ func (w *World) Scan(sync bool, order []string) *ScanRecord {
 		w.Ctrl = nil
 	}
 	if rec.Err != nil {
-		if _, fatal := rec.Err.(*cloudprovider.NodeNotInNodeGroup); fatal {
-			w.Ctrl = nil // escalator exits on this error; a restart follows
-		}
+		// RunForever returns any RunOnce error and main() exits on it: the process is gone
+		// and the next scan starts a new controller
+		w.Ctrl = nil
 	}
 	w.Last = rec
 	return rec
